@@ -44,7 +44,12 @@ def expected_arrays(sc, entries):
 
 def perturb(rng, key, val):
     if isinstance(val, dict):
-        return {k: (v if v is None or isinstance(v, str) else round(v * rng.choice([0.5, 1.5, 2.0]) + rng.choice([0, 1]), 6)) for k, v in val.items()}
+        out = {k: (v if v is None or isinstance(v, str) else round(v * rng.choice([0.5, 1.5, 2.0]) + rng.choice([0, 1]), 6)) for k, v in val.items()}
+        if key.startswith("thermometer_") and rng.random() < 0.5:
+            # a partial thermometer block: the coefficients it does not name are zero (the block REPLACES the default block)
+            keep = rng.sample(sorted(out), rng.randint(1, max(1, len(out) - 1)))
+            out = {k: out[k] for k in keep}
+        return out
     if key == "date_of_launch":
         return "1999-0%d-1%dT00:00:00.000000Z" % (rng.randrange(1, 9), rng.randrange(0, 9))
     return val
